@@ -91,7 +91,7 @@ CHECKS = {
          "DESIGN.md §5 C12, §4 E4"),
  "C13": ("mc-lang", "exploration",
          "exhaustive round trip parse -> print -> parse -> print over every accepted text of the C12 corpus, every doc-comment form at every gap, and every repository .wac file",
-         "Every text of the C12 corpus that Document::parse accepts (~3.5 M distinct texts quick), 10 doc-comment forms inserted at every gap of every base document, and all 155 .wac files under /repo: t1 = parse(s), p1 = print(t1), t2 = parse(p1) must succeed, strip(t1) == strip(t2) (spans removed, doc comments flattened to non-empty trimmed lines) and print(t2) == p1 byte for byte; every AST construct must occur in at least one round-tripped tree (constructs_never_printed is reported).",
+         "Every text of the C12 corpus that Document::parse accepts (~3.5 M distinct texts quick), 14 doc-comment forms (line and block comments, empty, multi-line with blank lines, with leading and trailing blanks on their lines, nested, CRLF) inserted at every gap of every base document, and all 155 .wac files under /repo: t1 = parse(s), p1 = print(t1), t2 = parse(p1) must succeed, strip(t1) == strip(t2) (spans removed, doc comments flattened to non-empty trimmed lines) and print(t2) == p1 byte for byte; every AST construct must occur in at least one round-tripped tree (constructs_never_printed is reported).",
          "Only accepted texts are round-tripped (acceptance is C12's question). Tree identity is identity of the serde-serialised AST.",
          "DESIGN.md §5 C13, §4 E4"),
  "C14": ("mc-lang", "fault_enumeration",
